@@ -15,6 +15,22 @@ ASSUMPTIONS = ["identity by (st_dev, st_ino) of fresh memfds", "descriptors that
 
 
 class FdSrv(SrvFamily):
+    def generate(self, tier, rng):
+        L = super().generate(tier, rng)
+        # every tenth scenario once more with descriptor number 0 free in the server process (`z0` on the first step that
+        # carries descriptors): a received descriptor whose number is 0 is a descriptor like any other
+        out = []
+        for i, l in enumerate(L):
+            if i % 10 == 0:
+                steps = l.split(" | ")
+                for k, st in enumerate(steps):
+                    t = st.split()
+                    if len(t) > 2 and t[0] == "m" and t[2].startswith("f") and t[2] != "f0":
+                        steps[k] = st + " z0"
+                        out.append(" | ".join(steps))
+                        break
+        return L + out
+
     def nontrivial(self, line, obs):
         return any(t.startswith("f") and t[1:].isdigit() and t != "f0" for t in line.split())
 
